@@ -123,9 +123,7 @@ func (t *TcpConn) finally() {
 	}
 	t.verifPoint("finally.closewrite")
 	t.state.Set(fatchoy.StateTerminated)
-	close(t.outbound)
 	t.verifPoint("finally.teardown")
-	t.outbound = nil
 	t.inbound = nil
 	t.errChan = nil
 	t.conn = nil
